@@ -146,3 +146,27 @@ class StepRunner:
 
     def close(self):
         self.m.run_exit()
+
+
+def run_pipeline(left, right, cfg):
+    """pandora.run on a fresh machine; returns (left dataset, right dataset, machine)"""
+    import pandora
+    from pandora.state_machine import PandoraMachine
+    m = PandoraMachine()
+    l, r = pandora.run(m, left, right, cfg)
+    return l, r, m
+
+
+def products(ds):
+    """named 2-D arrays of a disparity dataset: disparity_map, validity_mask, each confidence band, interpolated_coeff"""
+    out = {}
+    if ds is None or "disparity_map" not in ds.data_vars:
+        return out
+    out["disparity_map"] = np.asarray(ds["disparity_map"].data, dtype=np.float64)
+    out["validity_mask"] = np.asarray(ds["validity_mask"].data, dtype=np.float64)
+    if "confidence_measure" in ds.data_vars:
+        for i, name in enumerate(map(str, ds.coords["indicator"].data)):
+            out["band:" + name] = np.asarray(ds["confidence_measure"].data[:, :, i], dtype=np.float64)
+    if "interpolated_coeff" in ds.data_vars:
+        out["interpolated_coeff"] = np.asarray(ds["interpolated_coeff"].data, dtype=np.float64)
+    return out
